@@ -161,7 +161,9 @@ class Interp:
     def assume_domain(self, v):
         """shape validity of a freshly read value: enum domain, list length >= 0, non-null for non-Optional refs"""
         if isinstance(v, SV):
-            if isinstance(v.ty, TEnum):
+            if v.ty == STR:
+                self.run.assume(v.t != STR_NONE, silent=True)    # a value declared str is not None (shape validity)
+            elif isinstance(v.ty, TEnum):
                 self.run.assume(self.ts.enum_domain(v.t, v.ty.name), silent=True)
             elif isinstance(v.ty, TOpt) and isinstance(v.ty.t, TEnum) and v.t.sort() not in (Ref, Str):
                 s = v.t.sort()
